@@ -237,10 +237,57 @@ theorem stripPrefix_length {l s s' : Chars} (h : stripPrefix l s = some s') :
       · have := ih h; simp [this]; omega
       · cases h
 
-theorem matchSegs_rest {segs : List Seg} {s : Chars} {pos e : Nat} {caps : List Cap}
-    (hr : hasRest segs = true) (h : matchSegs segs s pos = some (e, caps)) : e = pos + s.length := by
+theorem stripPrefix_drop {l s s' : Chars} (h : stripPrefix l s = some s') : s.drop l.length = s' := by
+  induction l generalizing s with
+  | nil => simp [stripPrefix] at h; simp [h]
+  | cons a l ih =>
+    cases s with
+    | nil => simp [stripPrefix] at h
+    | cons b s =>
+      simp only [stripPrefix] at h
+      split at h
+      · simpa using ih h
+      · cases h
+
+theorem firstDown_some {α : Type} {f : Nat → Option α} {n : Nat} {r : α}
+    (h : firstDown f n = some r) : ∃ k, 1 ≤ k ∧ k ≤ n ∧ f k = some r := by
+  induction n with
+  | zero => simp [firstDown] at h
+  | succ n ih =>
+    simp only [firstDown] at h
+    cases hf : f (n + 1) with
+    | some r' =>
+      simp only [hf, Option.some.injEq] at h
+      subst h
+      exact ⟨n + 1, by omega, Nat.le_refl _, hf⟩
+    | none =>
+      simp only [hf] at h
+      obtain ⟨k, h1, h2, h3⟩ := ih h
+      exact ⟨k, h1, by omega, h3⟩
+
+/-- where a match ends: at the end of the input, or (prefix mode) before a `/` -/
+def EndOk (isPrefix : Bool) (r : Chars) : Prop := r = [] ∨ (isPrefix = true ∧ r.head? = some '/')
+
+theorem endOk_iff {isPrefix : Bool} {r : Chars} (h : endOk isPrefix r = true) : EndOk isPrefix r := by
+  cases r with
+  | nil => exact Or.inl rfl
+  | cons c tl =>
+    simp only [endOk, Bool.and_eq_true, beq_iff_eq] at h
+    exact Or.inr ⟨h.1, by simp [h.2]⟩
+
+/-- a successful match ends inside the input, at a place where the end condition holds -/
+theorem matchSegs_end {segs : List Seg} {isPrefix : Bool} {s : Chars} {pos e : Nat} {caps : List Cap}
+    (h : matchSegs segs isPrefix s pos = some (e, caps)) :
+    pos ≤ e ∧ e ≤ pos + s.length ∧ EndOk isPrefix (s.drop (e - pos)) := by
   induction segs generalizing s pos e caps with
-  | nil => simp [hasRest] at hr
+  | nil =>
+    simp only [matchSegs] at h
+    split at h
+    · rename_i hok
+      simp only [Option.some.injEq, Prod.mk.injEq] at h
+      obtain ⟨rfl, _⟩ := h
+      exact ⟨Nat.le_refl _, by omega, by simpa using endOk_iff hok⟩
+    · cases h
   | cons g more ih =>
     cases g with
     | lit l =>
@@ -249,66 +296,55 @@ theorem matchSegs_rest {segs : List Seg} {s : Chars} {pos e : Nat} {caps : List 
       | none => simp [hs] at h
       | some s' =>
         simp only [hs] at h
-        have := ih (by simpa [hasRest] using hr) h
+        obtain ⟨h1, h2, h3⟩ := ih h
         have hl := stripPrefix_length hs
-        omega
+        have hd := stripPrefix_drop hs
+        refine ⟨by omega, by omega, ?_⟩
+        have : e - pos = l.length + (e - (pos + l.length)) := by omega
+        rw [this, ← List.drop_drop, hd]
+        exact h3
     | var n =>
       simp only [matchSegs] at h
-      split at h
-      · cases h
-      · cases hm : matchSegs more (s.drop (s.takeWhile (· != '/')).length)
-            (pos + (s.takeWhile (· != '/')).length) with
-        | none => simp [hm] at h
-        | some r =>
-          obtain ⟨e', caps'⟩ := r
-          simp only [hm, Option.some.injEq, Prod.mk.injEq] at h
-          have := ih (by simpa [hasRest] using hr) hm
-          have hle : (s.takeWhile (· != '/')).length ≤ s.length := (List.takeWhile_sublist _).length_le
-          simp only [List.length_drop] at this
-          omega
+      obtain ⟨k, hk1, hk2, hf⟩ := firstDown_some h
+      cases hm : matchSegs more isPrefix (s.drop k) (pos + k) with
+      | none => simp [hm] at hf
+      | some r =>
+        obtain ⟨e', caps'⟩ := r
+        simp only [hm, Option.some.injEq, Prod.mk.injEq] at hf
+        obtain ⟨rfl, _⟩ := hf
+        obtain ⟨h1, h2, h3⟩ := ih hm
+        have hle : (s.takeWhile (· != '/')).length ≤ s.length := (List.takeWhile_sublist _).length_le
+        simp only [List.length_drop] at h2
+        refine ⟨by omega, by omega, ?_⟩
+        have : e' - pos = k + (e' - (pos + k)) := by omega
+        rw [this, ← List.drop_drop]
+        exact h3
     | digits n =>
       simp only [matchSegs] at h
-      split at h
-      · cases h
-      · cases hm : matchSegs more (s.drop (s.takeWhile isDigit).length)
-            (pos + (s.takeWhile isDigit).length) with
-        | none => simp [hm] at h
-        | some r =>
-          obtain ⟨e', caps'⟩ := r
-          simp only [hm, Option.some.injEq, Prod.mk.injEq] at h
-          have := ih (by simpa [hasRest] using hr) hm
-          have hle : (s.takeWhile isDigit).length ≤ s.length := (List.takeWhile_sublist _).length_le
-          simp only [List.length_drop] at this
-          omega
+      obtain ⟨k, hk1, hk2, hf⟩ := firstDown_some h
+      cases hm : matchSegs more isPrefix (s.drop k) (pos + k) with
+      | none => simp [hm] at hf
+      | some r =>
+        obtain ⟨e', caps'⟩ := r
+        simp only [hm, Option.some.injEq, Prod.mk.injEq] at hf
+        obtain ⟨rfl, _⟩ := hf
+        obtain ⟨h1, h2, h3⟩ := ih hm
+        have hle : (s.takeWhile isDigit).length ≤ s.length := (List.takeWhile_sublist _).length_le
+        simp only [List.length_drop] at h2
+        refine ⟨by omega, by omega, ?_⟩
+        have : e' - pos = k + (e' - (pos + k)) := by omega
+        rw [this, ← List.drop_drop]
+        exact h3
     | rest n =>
       simp only [matchSegs, Option.some.injEq, Prod.mk.injEq] at h
-      exact h.1.symm
+      obtain ⟨rfl, _⟩ := h
+      exact ⟨by omega, Nat.le_refl _, Or.inl (by simp)⟩
 
 theorem matchOne_end {segs : List Seg} {isPrefix : Bool} {s : Chars} {len : Nat} {caps : List Cap}
     (h : matchOne segs isPrefix s = some (len, caps)) :
     s.drop len = [] ∨ (isPrefix = true ∧ (s.drop len).head? = some '/') := by
-  unfold matchOne at h
-  cases hm : matchSegs segs s 0 with
-  | none => simp [hm] at h
-  | some r =>
-    obtain ⟨e, cs⟩ := r
-    simp only [hm] at h
-    split at h
-    · rename_i hr
-      simp only [Option.some.injEq, Prod.mk.injEq] at h
-      have := matchSegs_rest hr hm
-      left; rw [← h.1, this]; simp
-    · split at h
-      · rename_i hd
-        simp only [Option.some.injEq, Prod.mk.injEq] at h
-        left; rw [← h.1]; exact hd
-      · rename_i c tl hd
-        split at h
-        · rename_i hc
-          simp only [Option.some.injEq, Prod.mk.injEq] at h
-          simp only [Bool.and_eq_true, beq_iff_eq] at hc
-          right; rw [← h.1, hd]; simp [hc.1, hc.2]
-        · cases h
+  have := (matchSegs_end h).2.2
+  simpa [EndOk] using this
 
 theorem miniMatch_end {p : MiniPat} {isPrefix : Bool} {s : Chars} {len : Nat} {caps : List Cap}
     (h : miniMatch p isPrefix s = some (len, caps)) :
